@@ -82,6 +82,17 @@ fn number_from_name(f: &Field) -> (r: Option<NumberBuiltin>) ensures r == number
 fn cmd_from_name(f: &Field) -> (r: Option<ProcessCommandBuiltin>) ensures r == cmd_named(f) { unimplemented!() }
 #[verifier::external_body]
 fn result_from_name(f: &Field) -> (r: Option<ProcessResultBuiltin>) ensures r == result_named(f) { unimplemented!() }
+// MemberBuiltin::from_name: first family (string, array, number, process_command, process_result) that knows the name
+pub open spec fn member_named(f: &Field) -> Option<MemberBuiltin> {
+    if string_named(f) is Some { Some(MemberBuiltin::String(string_named(f)->Some_0)) }
+    else if array_named(f) is Some { Some(MemberBuiltin::Array(array_named(f)->Some_0)) }
+    else if number_named(f) is Some { Some(MemberBuiltin::Number(number_named(f)->Some_0)) }
+    else if cmd_named(f) is Some { Some(MemberBuiltin::ProcessCommand(cmd_named(f)->Some_0)) }
+    else if result_named(f) is Some { Some(MemberBuiltin::ProcessResult(result_named(f)->Some_0)) }
+    else { None }
+}
+#[verifier::external_body]
+fn member_from_name(f: &Field) -> (r: Option<MemberBuiltin>) ensures r == member_named(f) { unimplemented!() }
 pub open spec fn cmd_arity(b: ProcessCommandBuiltin) -> nat {
     match b {
         ProcessCommandBuiltin::Env => 2,
@@ -150,6 +161,7 @@ UNIT = VUnit(
         Enum("NumberBuiltin", source="src/builtins/number.rs"),
         Enum("ProcessCommandBuiltin", source="src/builtins/process.rs"),
         Enum("ProcessResultBuiltin", source="src/builtins/process.rs"),
+        Enum("MemberBuiltin", source="src/builtins/mod.rs"),
         Enum("HostValue", source="src/process.rs", derive="", rewrites=[Rw("R12", r"ProcessCommand<'a>", "CmdV"), Rw("R12", r"ProcessResult<'a>", "ResV")]),
         Enum("Value", derive="", rewrites=[
             Rw("R12", r"ArenaCow<'a>", "StrV"), Rw("R12", r"Vec<Value<'a>, &'a Arena>", "ArrV"), Rw("R12", r"HostHandle<'a>", "HostV"),
@@ -182,6 +194,11 @@ UNIT = VUnit(
         Fn("arity", label="result_arity", source="src/builtins/process.rs", impl="impl Builtin for ProcessResultBuiltin",
            sig="pub fn arity(&self) -> (r: usize)", expect_sig=r"fn arity\(&self\) -> usize",
            ensures=["r == 0"], vacuity="-", real_name="<ProcessResultBuiltin as Builtin>::arity"),
+        Raw("}\nimpl MemberBuiltin {"),
+        Fn("arity", label="member_arity", source="src/builtins/mod.rs", impl="impl Builtin for MemberBuiltin",
+           sig="pub fn arity(&self) -> (r: usize)", expect_sig=r"fn arity\(&self\) -> usize",
+           ensures=["r == (match *self { MemberBuiltin::String(b) => string_arity(b), MemberBuiltin::Array(b) => array_arity(b), MemberBuiltin::Number(_) => 0, MemberBuiltin::ProcessCommand(b) => cmd_arity(b), MemberBuiltin::ProcessResult(_) => 0 })"],
+           vacuity="-", real_name="<MemberBuiltin as Builtin>::arity"),
         Raw("}"),
         Fn("check_method_arity", impl="impl Runtime",
            sig="fn check_method_arity(arity: usize, args: &Args) -> (res: Result<(), RtErr>)",
@@ -248,12 +265,15 @@ UNIT = VUnit(
                     " && (ty(receiver) == Ty::Array && array_named(field) is Some && args.n() != array_arity(array_named(field)->Some_0) ==> res == Err::<Value, RtErr>(RtErr::TypeMismatch))"
                     " && (ty(receiver) == Ty::Number && (number_named(field) is None || args.n() != 0) ==> res == Err::<Value, RtErr>(RtErr::TypeMismatch)))"],
            rewrites=[Rw("R11b", r"let receiver = self\.eval_expr\(object\)\?;", "", min_matches=1),
-                     Rw("R9", r"ArrayBuiltin::from_name\(field\)", "array_from_name(field)", min_matches=2),
-                     Rw("R9", r"StringBuiltin::from_name\(field\)", "string_from_name(field)", min_matches=1),
-                     Rw("R9", r"NumberBuiltin::from_name\(field\)", "number_from_name(field)", min_matches=1),
-                     Rw("R9", r"ProcessCommandBuiltin::from_name\(field\)", "cmd_from_name(field)", min_matches=2),
-                     Rw("R9", r"ProcessResultBuiltin::from_name\(field\)", "result_from_name(field)", min_matches=1),
-                     Rw("R9", r"Self::check_method_arity\(&(\w+), args, span\)", r"check_method_arity(\1.arity(), args)", min_matches=7),
+                     # every `<Family>Builtin::from_name(field)` lookup -> its stub (uninterpreted function of the name); how many of each
+                     # the dispatcher performs is its own business, what is checked is what it does with the answers
+                     Rw("R9", r"ArrayBuiltin::from_name\(field\)", "array_from_name(field)", min_matches=0),
+                     Rw("R9", r"StringBuiltin::from_name\(field\)", "string_from_name(field)", min_matches=0),
+                     Rw("R9", r"NumberBuiltin::from_name\(field\)", "number_from_name(field)", min_matches=0),
+                     Rw("R9", r"ProcessCommandBuiltin::from_name\(field\)", "cmd_from_name(field)", min_matches=0),
+                     Rw("R9", r"ProcessResultBuiltin::from_name\(field\)", "result_from_name(field)", min_matches=0),
+                     Rw("R9", r"MemberBuiltin::from_name\(field\)", "member_from_name(field)", min_matches=0),
+                     Rw("R9", r"Self::check_method_arity\(&(\w+), args, span\)", r"check_method_arity(\1.arity(), args)", min_matches=1),
                      Rw("R9", r"self\.eval_array_member_call_mut\(object, array_builtin, field, args, span\)", "eval_array_member_call_mut(array_builtin, args)", min_matches=1),
                      Rw("R9", r"self\.eval_process_command_call_mut\(object, command_builtin, field, args, span\)", "eval_process_command_call_mut(command_builtin, args)", min_matches=1),
                      Rw("R9", r"self\.eval_string_member_call\(s, field, args\)", "eval_string_member_call(field, args)", min_matches=1),
